@@ -70,6 +70,21 @@ func VerifQueueLen(s *Stream, cid CID) int {
 	return -1
 }
 
+// VerifFlow returns the bytes queued for (in) and handed to (out) the consumer
+// with the given id so far; in == out with an empty queue means that nothing
+// is in flight between the queue and the consumer.
+func VerifFlow(s *Stream, cid CID) (in, out int64, ok bool) {
+	cs := &s.consumptions
+	if cid.Type() == FLVPacket {
+		cs = &s.flvConsumptions
+	}
+	if c, found := cs.Load(cid); found {
+		f := c.(*consumption).Flow.GetSample()
+		return f.InBytes, f.OutBytes, true
+	}
+	return 0, 0, false
+}
+
 // VerifConverters returns the stream's rtp demuxer, flv muxer and ts muxer
 // objects (nil interface values when absent), i.e. the obj values their
 // "*.before-pop" schedule points report.
